@@ -6,7 +6,7 @@ import os
 import sys
 
 from ..cli import C, find_config_dir, _check_deprecated_description_cleaning, _print_deprecation_warnings
-from ..config_loader import load_config
+from ..config_loader import load_config, load_supplemental_sources
 from ..merchant_utils import get_all_rules, get_transforms, explain_description
 from ..analyzer import parse_amex, parse_boa, parse_generic_csv
 from ..analyzer import analyze_transactions, export_json, export_markdown, build_merchant_json
@@ -61,9 +61,16 @@ def cmd_explain(args):
     else:
         rules = get_all_rules(match_mode=rule_mode)
 
+    # Supplemental sources are query-only: rules can look rows up in them, but they do not
+    # contribute transactions (same as 'tally up')
+    supplemental_data = load_supplemental_sources(config, config_dir)
+
     # Parse transactions (quietly)
     all_txns = []
     for source in data_sources:
+        if source.get('_supplemental', False):
+            continue
+
         filepath = os.path.join(config_dir, '..', source['file'])
         filepath = os.path.normpath(filepath)
         if not os.path.exists(filepath):
@@ -87,7 +94,8 @@ def cmd_explain(args):
                 txns = parse_generic_csv(filepath, format_spec, rules,
                                          source_name=source.get('name', 'CSV'),
                                          decimal_separator=source.get('decimal_separator', '.'),
-                                         transforms=transforms)
+                                         transforms=transforms,
+                                         data_sources=supplemental_data)
             else:
                 continue
         except Exception:
